@@ -1,2 +1,3 @@
 pub mod wire_eng;
 pub mod transport_eng;
+pub mod vfs_eng;
